@@ -68,6 +68,43 @@ def operatorNorm [HasSqrt α] (opsG : VOps V α) (maxiter : Nat) (v0 : V) : Exce
 
 end power
 
+/-! ## power iteration on a complex operator (complex Rayleigh quotient) -/
+
+/-- what `power_iteration` uses when the arrays are complex: `sum(v.conj() * w)` is a complex number (`α`), norms are real (`β`) -/
+structure VOpsC (V α β : Type) where
+  apply : V → V
+  /-- `snp.sum(v.conj() * w)` -/
+  inner : V → V → α
+  norm : V → β
+  /-- `v / c` for a real `c` -/
+  sdiv : V → β → V
+  /-- complex divided by real: `… / snp.linalg.norm(v) ** 2` -/
+  cdivr : α → β → α
+
+section powerC
+
+variable {V α β : Type} [Zero α] [Zero β] [Mul β] [LE β] [DecidableLE β]
+
+/-- the same loop as `powerLoop` (same statements of `power_iteration`); `mu` is complex.  For a Hermitian operator it is
+    real (what `operator_norm` relies on when it takes `.real`), for a general one it is not. -/
+def powerLoopC (ops : VOpsC V α β) : Nat → Option α → V → Option α × V
+  | 0, mu, v => (mu, v)
+  | k + 1, _, v =>
+    let Av := ops.apply v
+    let nAv := ops.norm Av
+    if nAv ≤ 0 ∧ 0 ≤ nAv then (some 0, Av)
+    else powerLoopC ops k (some (ops.cdivr (ops.inner v Av) (ops.norm v * ops.norm v))) (ops.sdiv Av nAv)
+
+def powerIterationC (ops : VOpsC V α β) (maxiter : Nat) (v0 : V) : Except String (α × V) :=
+  if maxiter < 1 then .error "value"
+  else
+    let v := ops.sdiv v0 (ops.norm v0)
+    match powerLoopC ops maxiter none v with
+    | (some mu, v') => .ok (mu, v')
+    | (none, _) => .error "other"
+
+end powerC
+
 /-! ## parameter estimators (given the norm estimates) -/
 
 section est
